@@ -363,7 +363,7 @@ class Rule(MethodMeek):
         #  count votes from ballots with equal rankings
         #
         for b in E.ballotsEqual:
-            v = (V1 // V(len(b.topRank))) * b.multiplier
+            v = (V1 / V(len(b.topRank))) * b.multiplier
             for cid in b.topRank:
                 E.candidate(cid).vote += v
 
